@@ -41,7 +41,7 @@ PROPS = {
         'canaries': [
             (MCI, "record = iso8583.dumps(obj, encoding=self.encoding, iso_config=self.iso_config)", "record = iso8583.dumps(obj, encoding=self.encoding)", "writer ignores its field configuration", "IpmWriter.write/contract"),
             (MCI, "output = iso8583.loads(vbs_record, encoding=self.encoding, iso_config=self.iso_config)", "output = iso8583.loads(vbs_record[1:], encoding=self.encoding, iso_config=self.iso_config)", "reader drops a byte of the record", "IpmReader.__next__/contract"),
-            (MCI, "    record_number = 1\n    last_record = None\n\n    def __init__(self, vbs_file: typing.BinaryIO, blocked: bool = False):", "    record_number = 1\n    last_record = None\n    _shared = {}\n\n    def __init__(self, vbs_file: typing.BinaryIO, blocked: bool = False):\n        VbsReader._shared['f'] = vbs_file", "reader stores state on the class", "reader-writer/frames"),
+            (MCI, "    record_number = 1\n    last_record = None\n\n    def __init__(self, vbs_file: typing.BinaryIO, blocked: bool = False):", "    record_number = 1\n    last_record = None\n    _shared = {}\n\n    def __init__(self, vbs_file: typing.BinaryIO, blocked: bool = False):\n        VbsReader._shared['f'] = vbs_file", "reader stores state on the class", "lint/cardutil.mciipm"),
         ],
         'assumptions': ["composition: IpmWriter.write frames exactly dumps(message) with its own encoding/configuration; IpmReader.__next__ hands exactly the framed record to loads with its own encoding/configuration; C01 (loads(dumps(m)) = m) and C03 (framing round trip) do the rest; an end-to-end ghost client over the real classes is executed for two messages (VBS and 1014)",
                         "isolation: every reader/writer method writes only fields of its own instance and its own file object (frame obligations; a lint over the class bodies for stores to class attributes or globals); simultaneous use from several THREADS is out of reach - only sequential interleavings of whole calls are covered"],
